@@ -36,10 +36,19 @@ def exhaustive(ctx, tier):
     ctx.extra["table_entries"] = len(keys)
     if len(keys) != 94:
         ctx.fail("table-size", "form factor table has %d entries, 94 expected" % len(keys))
-    grid = np.linspace(0.0, 2.0, 2001)
-    h = grid[1] - grid[0]
     for el in keys:
         ctx.begin({"exhaustive-element": el})
+        exhaustive_one(ctx, el)
+    missing = [s for s in SYMBOLS[:94] if s not in atomlib.formfactor]
+    if missing:
+        ctx.fail("missing-elements", "no table entry for %r" % missing)
+
+
+def exhaustive_one(ctx, el):
+    from xfab import atomlib, structure
+    grid = np.linspace(0.0, 2.0, 2001)
+    h = grid[1] - grid[0]
+    for _ in (0,):
         c = [float(x) for x in atomlib.formfactor[el]]
         if el not in Z:
             ctx.fail("unknown-element/" + el, "table key %r is not an element symbol" % el)
@@ -79,13 +88,13 @@ def exhaustive(ctx, tier):
         if not np.all(d < 0):
             i = int(np.argmax(d))
             ctx.fail("not-decreasing/" + el, "%s: f(%.3f)=%.6f -> f(%.3f)=%.6f" % (el, grid[i], vals[i], grid[i + 1], vals[i + 1]))
-    missing = [s for s in SYMBOLS[:94] if s not in atomlib.formfactor]
-    if missing:
-        ctx.fail("missing-elements", "no table entry for %r" % missing)
 
 
 def check(case, ctx):
     from xfab import atomlib, structure
+    if "exhaustive-element" in case:
+        exhaustive_one(ctx, case["exhaustive-element"])
+        return
     keys = list(atomlib.formfactor.keys())
     el = SYMBOLS[case["el"]]
     if el not in atomlib.formfactor:
